@@ -89,6 +89,28 @@ def main():
         if (out - ref).norm() > 1e-6:
             print(f"REPRODUCED: n={n} dt={dt}: |evolve(psi) - exp(-i dt H) psi| = {(out - ref).norm().item():.3g}")
             return 1
+    # a long run of steps whose parameters change very little from one step to the next (a slow detuning ramp),
+    # same interaction-matrix object throughout: state kept between steps (a cached diagonal, a reused operator)
+    # must not freeze any term -- the product of the steps against the product of dense exponentials
+    n = 3
+    U = torch.tensor([[0.0, 1.3, 0.4], [1.3, 0.0, 0.9], [0.4, 0.9, 0.0]], dtype=torch.float64)
+    om = torch.full((n,), 2.0, dtype=torch.float64)
+    ph = torch.zeros(n, dtype=torch.float64)
+    psi = torch.zeros(2 ** n, dtype=torch.complex128)
+    psi[0] = 1.0
+    ref = psi.clone()
+    steps, dt_ = 400, 0.005
+    for k in range(steps):
+        de = torch.full((n,), 100.0 * (1.0 + 2.5e-6 * k), dtype=torch.float64) + torch.tensor([0.0, 0.3, -0.2], dtype=torch.float64)
+        psi, _ = EvolveStateVector.evolve(dt_, om.to(torch.complex128), de.to(torch.complex128), ph.to(torch.complex128),
+                                          U, psi, 1e-12, [])
+        ref = torch.linalg.matrix_exp(-1j * dt_ * dense_h(om, de, ph, U)) @ ref
+    # make the slow drift matter: total detuning change 0.1 rad/us over 2 us of evolution
+    drift_err = (psi - ref).norm().item()
+    if drift_err > 1e-6:
+        print(f"REPRODUCED: {steps} consecutive steps with a detuning ramp of relative slope 2.5e-6 per step: "
+              f"|product of emu-sv steps - product of exp(-i dt H_k)| = {drift_err:.3g}")
+        return 1
     # wiring of _evolve_step
     from native_util import patch_pulser_observable, make_sequence_data
     patch_pulser_observable()
